@@ -115,13 +115,13 @@ func genUDPCase(r *Rng, prop string) udpCaseSpec {
 		case c < 32:
 			op.AKind, op.Replies = 9, nil
 			if prop == "C18" || r.Chance(40) {
-				op.AKind = []int{9, 16, 17, 18, 19}[r.Intn(5)]
-				if op.AKind == 17 || op.AKind == 18 {
+				op.AKind = []int{9, 16, 17, 18, 19, 20}[r.Intn(6)]
+				if op.AKind == 17 || op.AKind == 18 || op.AKind == 20 {
 					op.PLen = 0 // nothing may complete the truncated address
 				}
 			}
 		}
-		if op.AKind == 17 || op.AKind == 18 {
+		if op.AKind == 17 || op.AKind == 18 || op.AKind == 20 {
 			op.PLen = 0 // a payload would complete the truncated address into some other destination
 		}
 		if op.Kind == "honest" && !malformedKind(op.AKind) && targetKinds[op.AKind].atyp != 3 && (r.Chance(4) || (prop == "C14" && r.Chance(12))) {
